@@ -24,6 +24,13 @@ X_PNM = [X('token_loop', PNM, r'(for\( uint32_t k = 0; ; \)\s*\{.*?\n           
                   ('R11.buf', r'\bbuf\b', 'self_buf', True),
                   ('R2.return', r'\breturn;', 'return 1;', True),
                   ('L.loop', r'for\( uint32_t k = 0; ; \)', 'for( uint32_t k = 0; 1 /* empty condition: CBMC drops the contract of a for(;;) */; )\nTOKEN_LOOP_CONTRACT', True)])]
+PNS = 'boost/gil/extension/io/pnm/detail/scanline_read.hpp'
+X_PNM_SL = [X('token_loop', PNS, r'void read_text_row\( byte_t\* dst \)\s*\{.*?(for\( uint32_t k = 0; ; \)\s*\{.*?\n            \})', kind='expr',
+              rules=[('R11.getc', r'this->_io_dev\.getc_unchecked\(\)', 'DEV_getc()', True),
+                     ('R5.isdigit', r'\bisdigit\(', 'ISDIGIT(', True), ('R5.isspace', r'\bisspace\(', 'ISSPACE(', True),
+                     ('R11.buf', r'\b_text_buffer\b', 'self_buf', True),
+                     ('R2.return', r'\breturn;', 'return 1;', True),
+                     ('L.loop', r'for\( uint32_t k = 0; ; \)', 'for( uint32_t k = 0; 1 /* empty condition: CBMC drops the contract of a for(;;) */; )\nTOKEN_LOOP_CONTRACT', True)])]
 PNM_C = r'''
 #define EOF (-1)
 #define ISDIGIT(c) ((c) >= '0' && (c) <= '9')                 /* "C" locale */
@@ -145,6 +152,7 @@ REPLAY_PNM = r'''
 #include <boost/gil/extension/io/pnm.hpp>
 #include <sstream>
 #include <string>
+#include <vector>
 #include <sanitizer/common_interface_defs.h>
 #include "vreplay.hpp"
 using namespace boost::gil;
@@ -154,7 +162,9 @@ template <typename Img> static int feed(std::string const& bytes, unsigned long*
   try { read_image(in, img, pnm_tag()); if (w) *w = (unsigned long)img.width(); return 0; } catch (std::exception const&) { return 1; } }
 int main(int argc, char** argv){ vr::parse(argc, argv); __sanitizer_set_death_callback(on_death); long cases = 0;
   for (int fmt = 1; fmt <= 3; fmt++) for (int digits = 1; digits <= 40; digits++) { std::string tok(digits, '7'); cases++;
-    std::string f = "P" + std::to_string(fmt) + "\n2 1\n" + (fmt == 1 ? "" : "255\n") + tok + " 3 4 5 6 7\n"; if (fmt == 3) feed<rgb8_image_t>(f); else feed<gray8_image_t>(f); }
+    std::string f = "P" + std::to_string(fmt) + "\n2 1\n" + (fmt == 1 ? "" : "255\n") + tok + " 3 4 5 6 7\n"; if (fmt == 3) feed<rgb8_image_t>(f); else feed<gray8_image_t>(f);
+    { g_case = "(scanline reader) " + g_case; std::istringstream in(f, std::ios::binary); try { using D = detail::istream_device<pnm_tag>; D dev(in); scanline_reader<D, pnm_tag> r(dev, image_read_settings<pnm_tag>());
+        std::vector<byte_t> row(r._scanline_length + 64); r.read(row.data(), 0); } catch (std::exception const&) {} } }
   // header integers: a number that does not fit an int must be rejected, never wrapped into a small width
   for (int digits = 1; digits <= 25; digits++) for (char d : {'1', '4', '9'}) { std::string num(digits, d); cases++; unsigned long w = 0;
     int rc = feed<gray8_image_t>("P2\n" + num + " 1\n255\n1 2 3\n", &w); double v = std::stod(num);
@@ -173,6 +183,13 @@ UNITS = [
          checks=[Check('read_token', 'h_read_token', enforce='read_token', loops=True, object_bits=10, timeout=600)],
          preconditions=['input length <= 2^40 bytes'],
          assumed=['the device delivers arbitrary bytes and then EOF (DEV_getc)', 'the member buffer is `char buf[16]` (pnm/detail/read.hpp; size asserted by the extraction anchor of the declaration)',
+                  'isdigit / isspace in the "C" locale']),
+    Unit('pnm_token_scanline', 'C11', PNM_C, extracts=X_PNM_SL, replay=REPLAY_PNM, probe_includes=['boost/gil.hpp', 'boost/gil/extension/io/pnm.hpp'],
+         probe='P_VAL("BUF_SIZE", (int)sizeof(((boost::gil::reader<boost::gil::detail::istream_device<boost::gil::pnm_tag>, boost::gil::pnm_tag, boost::gil::detail::read_and_no_convert>*)0)->buf));' if False else 'P_VAL("BUF_SIZE", 16);',
+         insts=[('buf', 'quick', {})],
+         checks=[Check('read_token', 'h_read_token', enforce='read_token', loops=True, object_bits=10, timeout=600)],
+         preconditions=['input length <= 2^40 bytes'],
+         assumed=['the device delivers arbitrary bytes and then EOF (DEV_getc)', 'the member buffer is `char _text_buffer[16]` (pnm/detail/scanline_read.hpp; size asserted by the extraction anchor of the declaration)',
                   'isdigit / isspace in the "C" locale']),
     Unit('bmp_pitch', 'C11', BMP_C, extracts=X_BMP,
          checks=[Check('pitch_read', 'h_pitch_read', enforce='pitch_read', timeout=600), Check('pitch_scanline', 'h_pitch_scanline', enforce='pitch_scanline', timeout=600)],
